@@ -29,7 +29,7 @@ type c11Case struct {
 }
 
 var c11Tests = []struct{ pkg, file, test string }{
-	{".", "alpha_test.go", "TestAlpha"}, {".", "dotted.v2_test.go", "TestDotted"}, {".", "alpha_test.go", "TestAl"}, {".", "beta_test.go", "Test_x"}, {".", "gamma_test.go", "TestGamma2"},
+	{".", "alpha_test.go", "TestAlpha"}, {".", "dotted.v2_test.go", "TestDotted"}, {".", "api.snapshot_test.go", "TestSnapApi"}, {".", "alpha_test.go", "TestAl"}, {".", "beta_test.go", "Test_x"}, {".", "gamma_test.go", "TestGamma2"},
 	{"sub", "sub_test.go", "TestSub"}, {"sub", "sub_test.go", "TestSubAlpha"}, {"sub/deep/er", "er_test.go", "TestEr"}, {"sub/deep/er", "er_test.go", "TestAlpha"},
 }
 
